@@ -166,8 +166,18 @@ class World:
         self.name = spec.get("name", "w")
         self.device = make_device(spec)
         self.nq = spec.get("qubits", 2)
-        self.register = make_register(self.nq)
-        self.qids = list(REGISTERS[self.nq])
+        if spec.get("coords"):
+            # explicit register: ordered {qid: coords}; 3 coordinates -> Register3D
+            from pulser import Register, Register3D
+
+            coords = {k: tuple(float(x) for x in v) for k, v in spec["coords"].items()}
+            cls = Register3D if len(next(iter(coords.values()))) == 3 else Register
+            self.register = cls(coords)
+            self.qids = list(coords)
+            self.nq = len(coords)
+        else:
+            self.register = make_register(self.nq)
+            self.qids = list(REGISTERS[self.nq])
         self.prefix = [tuple(o) if not isinstance(o, tuple) else o for o in spec.get("prefix", [])]
         self.detmaps = {
             "m1": {"q0": 1.0},
